@@ -74,7 +74,13 @@ def run_maps(ctx, p):
     try:
         if p.get('itype') and which == 'vex_skew':
             Sk = b.skew(vi)
-            d = max(md(np.asarray(Sk, dtype=np.float64), ref.skew(v)), md(b.vex(Sk), v),
+            Mi = ref.skew(v).astype(p['itype']) if len(v) == 3 else None
+            if Mi is not None and np.array_equal(Mi.astype(np.float64), ref.skew(v)):
+                # the matrix itself held in the narrow signed type (its entries fit, the difference of two of them need not)
+                d0 = md(b.vex(Mi), v) / sc
+            else:
+                d0 = 0.0
+            d = max(d0, md(np.asarray(Sk, dtype=np.float64), ref.skew(v)), md(b.vex(Sk), v),
                     (md(np.asarray(b.skew(vi), dtype=np.float64) @ u, np.cross(v, u)) / max(1.0, float(np.max(np.abs(u))))) if len(v) == 3 else 0.0) / sc
         elif p.get('itype') and which == 'vexa_skewa':
             Sa = b.skewa(vi)
